@@ -70,6 +70,7 @@ D = {
  "C08d": ("call refuses more than 128 stacked returns", "recursion deeper than 128 or > 128 abandoned frames"),
  "C09d": ("same change as C09c", "see C09c"),
  "C10d": ("same change as C14a, judged through C10", "byte data-label destination and an immediate <= -129 (Internal Error)"),
+ "C11d": ("PreprocessorContext::clear() no longer resets the data counter", "library use: a context reused through clear() after a program that defined data; OFFSET in the second program"),
  "C12d": ("loader `dw [n]`: (n << 1) in u16 for fill and counter", "n == 32768 over earlier non-zero data"),
  "C13d": ("a single parameter named `_` is not substituted", "macro(_) whose body uses `_`, used with a real argument"),
  "C14d": ("labelled `dw \"\"` returns before the label is typed DATA", "jump to / `start` as the label of an empty wide string"),
